@@ -6,6 +6,10 @@ ops:
 * `views x<block> l<raising>`     → the 12 `settings_map` combinations and the 4 cached views, pretty functions being the
                                     tagging stub `P<idx>(<arg>)` (raising ValueError for the listed indices)
 * `real x<block>`                 → the same 16 mappings with every pretty result masked as `P`
+* `hist x<block> l<raising> l<ops>` → the answers of a sequence of accesses on ONE object (model with cache attributes),
+                                    op ids: 0-3 raw_settings, raw_settings_by_index, settings, settings_by_index;
+                                    4-15 settings_map (name,const,enum)×(pretty F,T)×(parse F,T); 16 setting_enums;
+                                    17 max_setting_enum; 18 settings_tuple; followed by the state of the four cache attributes
 -/
 namespace C02
 open Proto
@@ -50,6 +54,37 @@ def allMaps (mask : Bool) (raising : List Nat) (ss : List Setting) : String :=
                 showMap mask (settings c ss), showMap mask (settingsByIndex c ss)]
   " | ".intercalate (combos ++ views)
 
+def opOfNat (n : Nat) : Option Op :=
+  match n with
+  | 0 => some .rawSettings
+  | 1 => some .rawSettingsByIndex
+  | 2 => some .settings
+  | 3 => some .settingsByIndex
+  | 16 => some .settingEnums
+  | 17 => some .maxSettingEnum
+  | 18 => some .settingsTuple
+  | n =>
+    if 4 ≤ n ∧ n < 16 then
+      let k := n - 4
+      let it := if k / 4 = 0 then IndexType.name else if k / 4 = 1 then IndexType.const else IndexType.enum
+      some (.settingsMap it (k / 2 % 2 = 1) (k % 2 = 1))
+    else none
+
+def showAnswer : Answer → String
+  | .map m => showMap false m
+  | .enums l => "enums " ++ showNats l
+  | .max (.ok n) => s!"max {n}"
+  | .max (.error e) => "max exc " ++ e.name
+  | .tuple ss => s!"tuple {ss.length} {" ".intercalate (ss.map showSetting)}"
+
+def showSlot (o : Option (List (Key × Val))) : String := if o.isSome then "M" else "N"
+
+def showHistory (raising : List Nat) (ss : List Setting) (ops : List Op) : String :=
+  let r := runHistory (stub raising) ss {} ops
+  let c := r.2
+  " || ".intercalate (r.1.map showAnswer) ++
+    s!" || cache {showSlot c.rawSettings}{showSlot c.rawSettingsByIndex}{showSlot c.settings}{showSlot c.settingsByIndex}"
+
 def step : List String → String
   | ["parse", d] =>
     match bytesTok d with
@@ -65,6 +100,14 @@ def step : List String → String
       | .ok ss => allMaps false r ss
       | .error e => "exc " ++ e.name
     | _, _ => "bad-op"
+  | ["hist", d, r, o] =>
+    match bytesTok d, natsTok r, natsTok o with
+    | some d, some r, some o =>
+      match o.mapM opOfNat, iterSettingsE d with
+      | some ops, .ok ss => showHistory r ss ops
+      | none, _ => "bad-op"
+      | _, .error e => "exc " ++ e.name
+    | _, _, _ => "bad-op"
   | ["real", d] =>
     match bytesTok d with
     | some d =>
